@@ -3,7 +3,7 @@
   atomic replacement), compares the observations and evaluates the specification predicates of
   IcingaModel/C14/Spec.lean on the implementation's own observations.
 
-  Input lines: see harness/c14.cpp (C M, M, R, S, W, K, L).  A *case* starts at every `C M`, `S` and `W` line.
+  Input lines: see harness/c14.cpp (C M, M, R, I, S, W, K, L).  A *case* starts at every `C M`, `I`, `S` and `W` line.
   Output:
     MISMATCH line=<n> case=<k> op=<M|R|S|W|K|L> what=<...>
     SPECFAIL line=<n> case=<k> clause=<name> tags=<t1+t2|none>
@@ -109,6 +109,15 @@ structure DSt where
   stateFileMax : Nat := 0
   sRestored : Nat := 0
   sNumText : Nat := 0     -- S cases with a modified number whose config text does not read back identically
+  sKeyText : Nat := 0     -- S cases with a modified value holding a dictionary key whose config text does not read back
+  sNotification : Nat := 0
+  sDowntime : Nat := 0
+  sUser : Nat := 0
+  sComment : Nat := 0
+  sWriterKeys : Nat := 0  -- S cases whose modified values hold a dictionary key that is not a plain identifier
+  iCases : Nat := 0       -- inventories (reflection types) checked against the pinned attribute list
+  iPinned : Nat := 0      -- pinned attributes looked up in an inventory
+  gPinned : Nat := 0      -- pinned attributes compared through their getters across a restart
   wCases : Nat := 0
   kills : Nat := 0
   killOld : Nat := 0
@@ -216,10 +225,32 @@ abbrev NumOracle := List (Tok × Option Tok)
 
 def parseOracle (s : String) : Option NumOracle :=
   if s == "-" then some []
-  else (s.splitOn ",").mapM (fun pr =>
+  else ((s.splitOn ",").filter (fun pr => !pr.startsWith "k:")).mapM (fun pr =>
     match pr.splitOn ">" with
     | [a, b] => some (a.toUTF8.toList, if b == "!" then none else some b.toUTF8.toList)
     | _ => none)
+
+/-- The oracle for the config writer's key text: the dictionary keys `k` for which `{ k = 1 }`, as the writer prints it,
+    does not evaluate to the same dictionary again (entries `k:<hex key>>!`). -/
+def parseBadKeys (s : String) : Option (List Key) :=
+  if s == "-" then some []
+  else ((s.splitOn ",").filter (fun pr => pr.startsWith "k:")).mapM (fun pr =>
+    match (String.ofList (pr.toList.drop 2)).splitOn ">" with
+    | [a, _] => unhexText a
+    | _ => none)
+
+mutual
+def hasBadKey (bad : List Key) : V → Bool
+  | .arr xs => hasBadKeyL bad xs
+  | .obj kvs => hasBadKeyM bad kvs
+  | _ => false
+def hasBadKeyL (bad : List Key) : List V → Bool
+  | [] => false
+  | x :: xs => hasBadKey bad x || hasBadKeyL bad xs
+def hasBadKeyM (bad : List Key) : List (Key × V) → Bool
+  | [] => false
+  | (k, v) :: r => bad.contains k || hasBadKey bad v || hasBadKeyM bad r
+end
 
 mutual
 def mapNums (orc : NumOracle) : V → V
@@ -254,21 +285,24 @@ end
 /-- The modified-attributes half of a restart through the model: the spec's config object, its runtime
     modifications (`modify`), `dumpModified`, and the replay onto the freshly loaded object.  Returns
     (vars, notes, original_attributes) before and after, as JSON values, and whether the file loads. -/
-def modattrModel (orc : NumOracle) (spec : V) : Option ((V × V × V) × (V × V × V) × Bool) :=
+def modattrModel (orc : NumOracle) (badKeys : List Key) (spec : V) : Option ((V × V × V) × (V × V × V) × Bool) :=
   match spec with
   | .obj kvs =>
     let vars := match dGet? "vars".toList kvs with
       | some (.obj x) => JValue.obj x
       | _ => JValue.null
-    let notes := match dGet? "notes".toList kvs with
-      | some (.str s) => JValue.str s
-      | _ => JValue.str []
+    let isCheckable := match dGet? "kind".toList kvs with
+      | some (.str ['h']) | some (.str ['s']) => true
+      | _ => false
+    let notesF : Dict Tok := match dGet? "notes".toList kvs with
+      | some (.str s) => [("notes".toList, JValue.str s)]
+      | _ => if isCheckable then [("notes".toList, JValue.str [])] else []   -- only checkables have `notes`
     let mods : List (Path × V) := match dGet? "mods".toList kvs with
       | some (.arr ms) => ms.filterMap (fun m => match m with
           | .arr [.str a, v] => some (splitDots a, v)
           | _ => none)
       | _ => []
-    let fresh : Obj Tok := { fields := [("notes".toList, notes), ("vars".toList, vars)], original := none }
+    let fresh : Obj Tok := { fields := notesF ++ [("vars".toList, vars)], original := none }
     let restores : List Path := match dGet? "restore".toList kvs with
       | some (.arr rs) => rs.filterMap (fun r => match r with
           | .str a => some (splitDots a)
@@ -280,7 +314,10 @@ def modattrModel (orc : NumOracle) (spec : V) : Option ((V × V × V) × (V × V
     -- the whole file is rejected at start-up
     let ents := dumpModified ob
     let loadable := !(ents.any (fun e => hasBadNum orc e.2))
-    let oa := if loadable then replayModified fresh (ents.map (fun e => (e.1, mapNums orc e.2))) else fresh
+    -- a value holding a dictionary key the writer's text does not give back (oracle): the parser rejects the file without
+    -- an exception (ConfigCompiler::Compile returns no expression), nothing is evaluated (configitem.cpp:652-654)
+    let keysOk := !(ents.any (fun e => hasBadKey badKeys e.2))
+    let oa := if loadable && keysOk then replayModified fresh (ents.map (fun e => (e.1, mapNums orc e.2))) else fresh
     let view := fun (o : Obj Tok) =>
       ((dGet? "vars".toList o.fields).getD .null, (dGet? "notes".toList o.fields).getD .null, normOrig (origToJson o.original))
     some (view ob, view oa, loadable)
@@ -292,11 +329,39 @@ def cfgView (c : V) : V × V × V :=
                  normOrig ((dGet? origAttrKey kvs).getD .null))
   | _ => (.null, .null, .null)
 
+def plainIdent (k : Key) : Bool :=
+  match k with
+  | [] => false
+  | c :: r => (c.isAlpha || c == '_') && r.all (fun x => x.isAlphanum || x == '_')
+
+mutual
+def oddKeyIn : V → Bool
+  | .arr xs => oddKeyInL xs
+  | .obj kvs => oddKeyInM kvs
+  | _ => false
+def oddKeyInL : List V → Bool
+  | [] => false
+  | x :: xs => oddKeyIn x || oddKeyInL xs
+def oddKeyInM : List (Key × V) → Bool
+  | [] => false
+  | (k, v) :: r => !plainIdent k || oddKeyIn v || oddKeyInM r
+end
+
+/-- Does a value of the spec's `mods` hold a dictionary key the config writer has to quote? (statistic) -/
+def hasWriterKey : Option V → Bool
+  | some (.obj kvs) => match dGet? "mods".toList kvs with
+    | some (.arr ms) => ms.any (fun m => match m with
+        | .arr [_, v] => oddKeyIn v
+        | _ => false)
+    | _ => false
+  | _ => false
+
 def handleS (d : DSt) (n : Nat) (sh : String) (post : List String) : IO DSt := do
   match post with
-  | [kn, sbh, sah, cbh, cah, loadedS, orcS] =>
-    match unhexJson sbh, unhexJson sah, unhexJson cbh, unhexJson cah, parseBool? loadedS, parseOracle orcS with
-    | some (.obj sb), some (.obj sa), some cb, some ca, some loaded, some orc =>
+  | [kn, sbh, sah, cbh, cah, loadedS, orcS, gbh, gah] =>
+    match unhexJson sbh, unhexJson sah, unhexJson cbh, unhexJson cah, parseBool? loadedS, parseOracle orcS, unhexJson gbh, unhexJson gah with
+    | some (.obj sb), some (.obj sa), some cb, some ca, some loaded, some orc, some (.obj gb), some (.obj ga) =>
+      let badKeys := (parseBadKeys orcS).getD []
       let knownL := parseKnown kn
       let known : Key → Bool := fun k => knownL.contains k
       let mut d := { d with steps := d.steps + 1, sCases := d.sCases + 1 }
@@ -324,8 +389,23 @@ def handleS (d : DSt) (n : Nat) (sh : String) (post : List String) : IO DSt := d
         d := { d with mismatches := d.mismatches + 1 }
       let hasType := !onlyKnownTypesM known o.fields
       if hasType then d := { d with sTypeKey := d.sTypeKey + 1 }
+      d := match String.ofList tname with
+        | "Notification" => { d with sNotification := d.sNotification + 1 }
+        | "Downtime" => { d with sDowntime := d.sDowntime + 1 }
+        | "User" => { d with sUser := d.sUser + 1 }
+        | "Comment" => { d with sComment := d.sComment + 1 }
+        | _ => d
+      -- tie between the two views of the implementation: what the getters return for a pinned attribute is what
+      -- Serialize(object, FAState) shows for it, before and after the restart
+      let pinned := pinnedState tname
+      d := { d with gPinned := d.gPinned + pinned.length }
+      match pinned.find? (fun a => dGet? a gb != dGet? a sb || dGet? a ga != dGet? a sa) with
+      | some a =>
+        IO.println s!"MISMATCH line={n} case={d.caseNo} op=S what=getter_vs_serialize:{String.ofList a}"
+        d := { d with mismatches := d.mismatches + 1 }
+      | none => pure ()
       -- model: runtime modifications → DumpModifiedAttributes → replay at start-up
-      match (unhexJson sh) >>= modattrModel orc with
+      match (unhexJson sh) >>= modattrModel orc badKeys with
       | some (mb, ma, mloaded) =>
         if mloaded != loaded then
           IO.println s!"MISMATCH line={n} case={d.caseNo} op=S what=modified_attributes_file_loads:impl={loaded};model={mloaded}"
@@ -343,6 +423,7 @@ def handleS (d : DSt) (n : Nat) (sh : String) (post : List String) : IO DSt := d
         d := { d with specfails := d.specfails + 1 }
       | none => pure ()
       if !orc.isEmpty then d := { d with sNumText := d.sNumText + 1 }
+      if !badKeys.isEmpty then d := { d with sKeyText := d.sKeyText + 1 }
       let cfgVerdict := specRestartConfig cb ca
       let cfgSame := cfgVerdict.isNone
       let hasMods := match cb with
@@ -351,15 +432,16 @@ def handleS (d : DSt) (n : Nat) (sh : String) (post : List String) : IO DSt := d
       if hasMods then d := { d with sMods := d.sMods + 1 }
       if (match unhexJson sh with | some (.obj kvs) => dHas "restore".toList kvs | _ => false) then
         d := { d with sRestored := d.sRestored + 1 }
-      match specRestartState (JValue.obj sb) (JValue.obj sa), cfgVerdict with
-      | none, none => pure ()
-      | a, _ =>
+      if hasWriterKey (unhexJson sh) then d := { d with sWriterKeys := d.sWriterKeys + 1 }
+      let a := specRestartState (JValue.obj sb) (JValue.obj sa)
+      let pinV := specRestartPinned tname gb ga
+      if a.isSome || pinV.isSome || !cfgSame then
         let tags := (if a.isSome && hasType then ["typekey"] else if a.isSome then ["state"] else []) ++
-          (if !cfgSame then ["config"] else [])
+          (if pinV.isSome then ["pinned"] else []) ++ (if !cfgSame then ["config"] else [])
         IO.println s!"SPECFAIL line={n} case={d.caseNo} clause={Clause.stateRoundtrip.name} tags={tagStr tags}"
         d := { d with specfails := d.specfails + 1 }
       return { d with caseNontrivial := true }
-    | _, _, _, _, _, _ => IO.println s!"BADLINE line={n}"; return d
+    | _, _, _, _, _, _, _, _ => IO.println s!"BADLINE line={n}"; return d
   | _ => IO.println s!"BADLINE line={n}"; return d
 
 def parseEv (s : String) : Option SysEv :=
@@ -389,6 +471,25 @@ def handle (d : DSt) (n : Nat) (line : String) : IO DSt := do
     if !d.inM then IO.println s!"BADLINE line={n}"; return d
     match unhexText ah with
     | some a => handleMR { d with caseHash := hashStr (hashStr d.caseHash "R") ah } n false (splitDots a) JValue.null post
+    | none => IO.println s!"BADLINE line={n}"; return d
+  | ["I", tn] =>
+    let d := closeCase d
+    let d := { d with caseNo := d.caseNo + 1, inM := false, steps := d.steps + 1, iCases := d.iCases + 1,
+                      caseHash := hashStr 17 tn, caseNontrivial := true }
+    match post.mapM (fun w => match w.splitOn ":" with
+        | [a, f] => (parseNat? f).map (fun fl => (a.toList, fl))
+        | _ => none) with
+    | some inv =>
+      let pinned := pinnedState tn.toList
+      let d := { d with iPinned := d.iPinned + pinned.length }
+      match specInventory tn.toList inv with
+      | some cl =>
+        let missing := pinned.filter (fun a => match inv.lookup a with
+          | some fl => !hasFlag fl faState
+          | none => true)
+        IO.println s!"SPECFAIL line={n} case={d.caseNo} clause={cl.name} tags={tagStr (missing.map String.ofList)}"
+        return { d with specfails := d.specfails + 1 }
+      | none => return d
     | none => IO.println s!"BADLINE line={n}"; return d
   | ["S", sh] =>
     let d := closeCase d
@@ -462,4 +563,4 @@ def main : IO Unit := do
   let stdin ← IO.getStdin
   let d ← foldLines stdin handle ({} : DSt)
   let d := closeCase d
-  IO.println s!"STATS cases={d.caseNo} steps={d.steps} m_cases={d.mCases} modifies={d.mOps} restores={d.rOps} op_errors={d.mErr} restores_checked={d.rChecked} s_cases={d.sCases} s_typekey={d.sTypeKey} s_modattrs={d.sMods} s_numtext={d.sNumText} s_too_deep={d.sTooDeep} s_restored_before_dump={d.sRestored} state_file_max_bytes={d.stateFileMax} writes={d.wCases} kills={d.kills} kill_old={d.killOld} kill_new={d.killNew} fault_mkstemp={d.fMkstemp} fault_chmod={d.fChmod} fault_write={d.fWrite} fault_write_partial={d.fWritePartial} fault_fsync={d.fFsync} fault_close={d.fClose} fault_rename={d.fRename} fault_unlink={d.fUnlink} fault_none={d.fEnd} stale_tmp_seen={d.leftovers} stale_tmp_after_dump={d.leftoversAfter} nontrivial={d.nontrivial} mismatches={d.mismatches} specfails={d.specfails}"
+  IO.println s!"STATS cases={d.caseNo} steps={d.steps} m_cases={d.mCases} modifies={d.mOps} restores={d.rOps} op_errors={d.mErr} restores_checked={d.rChecked} s_cases={d.sCases} s_typekey={d.sTypeKey} s_modattrs={d.sMods} s_numtext={d.sNumText} s_keytext={d.sKeyText} s_notification={d.sNotification} s_downtime={d.sDowntime} s_user={d.sUser} s_comment={d.sComment} s_writer_keys={d.sWriterKeys} inventories={d.iCases} inventory_pinned={d.iPinned} getters_pinned={d.gPinned} s_too_deep={d.sTooDeep} s_restored_before_dump={d.sRestored} state_file_max_bytes={d.stateFileMax} writes={d.wCases} kills={d.kills} kill_old={d.killOld} kill_new={d.killNew} fault_mkstemp={d.fMkstemp} fault_chmod={d.fChmod} fault_write={d.fWrite} fault_write_partial={d.fWritePartial} fault_fsync={d.fFsync} fault_close={d.fClose} fault_rename={d.fRename} fault_unlink={d.fUnlink} fault_none={d.fEnd} stale_tmp_seen={d.leftovers} stale_tmp_after_dump={d.leftoversAfter} nontrivial={d.nontrivial} mismatches={d.mismatches} specfails={d.specfails}"
